@@ -79,7 +79,7 @@ func ruleKeyScan(c *Ctx) {
 						stepsAtCb = steps
 					}
 				}
-				if ef.Kind == "store" && strings.HasSuffix(ef.Base, ".Tape") && strings.Contains(ef.Val.String(), "5620492334958379008") {
+				if ef.Kind == "store" && strings.HasSuffix(ef.Base, ".Tape") && isNopAff(ef.Val) {
 					nopStore = true
 					if stepsAtCb < 0 {
 						stepsAtCb = steps // deletion without callback (fn == nil)
